@@ -646,7 +646,8 @@ func (obj *Flavor) definesAccessor(name string) bool {
 func (obj *Flavor) inheritedVar(k string, v slip.Object) bool {
 	for _, f := range obj.inherit {
 		if iv, has := f.defaultVars[k]; has {
-			return v == iv
+			// A default can be a list which the == operator can not compare.
+			return slip.ObjectEqual(v, iv)
 		}
 	}
 	return false
